@@ -31,6 +31,25 @@ def strip_hash(s):
     return re.sub(r" h=\w+", "", s)
 
 
+def field_of(snap, k):
+    m = re.search(r"(?:^| )%s=(\S+)" % k, snap)
+    return m.group(1) if m else None
+
+
+def snapshot_diff(impl, model):
+    """Which parts of `R ret calls herr thrown | S <snapshot>` differ (for the report of a disagreement)."""
+    out = []
+    ri, _, si = impl.partition(" | S ")
+    rm, _, sm = model.partition(" | S ")
+    for name, x, y in zip(("ret", "handler_calls", "handler_error", "thrown"), ri.split()[1:], rm.split()[1:]):
+        if x != y:
+            out.append("%s impl=%s model=%s" % (name, x, y))
+    for k in ("cur", "sz", "lab", "fix", "rel", "adr", "nod", "one"):
+        if field_of(si, k) != field_of(sm, k):
+            out.append("%s impl=%s model=%s" % (k, field_of(si, k), field_of(sm, k)))
+    return out
+
+
 def one_of(snap):
     m = re.search(r" one=(\S+)", snap)
     return m.group(1)
@@ -109,6 +128,23 @@ def monitor(hdr, cmd, pre, res, post, info, tconst):
                                 "AArch64: register id outside 0..31/63 accepted and emitted (%s)" % info.strip()))
                 else:
                     out.append(("C14/x86-invalid-reg-id-accepted/%d/%s" % (enc, op), "x86: register id >= 32 accepted under strict validation (%s)" % info.strip()))
+    # binding is final and labels are never removed (C14_bound_label_final / C14_label_count_monotone), judged on the real emitter
+    l0 = field_of(pre, "lab"); l1 = field_of(post, "lab")
+    if l0 is not None and l1 is not None:
+        a0 = [] if l0 == "-" else l0.split(","); a1 = [] if l1 == "-" else l1.split(",")
+        if len(a1) < len(a0):
+            out.append(("C14/%s/%s/label-removed" % (where, kind), "a call removed labels: %s -> %s" % (l0, l1)))
+        else:
+            for i, x in enumerate(a0):
+                if x.startswith("b:") and a1[i] != x:
+                    out.append(("C14/%s/%s/bound-label-changed" % (where, kind), "label %d was bound (%s) and is %s after the call" % (i, x, a1[i])))
+                    break
+    # emitted bytes are never taken back, sections never disappear (C14_sizes_never_shrink), judged on the real emitter
+    z0 = field_of(pre, "sz"); z1 = field_of(post, "sz")
+    if z0 is not None and z1 is not None:
+        b0 = [int(x) for x in z0.split(",")]; b1 = [int(x) for x in z1.split(",")]
+        if len(b1) < len(b0) or any(y < x for x, y in zip(b0, b1)):
+            out.append(("C14/%s/%s/section-shrank" % (where, kind), "a call shrank a section or removed one: sz %s -> %s" % (z0, z1)))
     if setter and failed:
         out.append(("C14/setter-failed", "one-shot setter failed"))
     return out
@@ -242,8 +278,19 @@ def run_shard(args):
             if cmd[0] not in ("O", "X", "M", "RS"):
                 res["nontrivial"] += 1
             implcanon = rtxt + " | S " + strip_hash(post)
+            b, _, fbits = b.partition(" | F ")
             if implcanon != b:
-                res["disagree"].append({"session": sess, "call": idx, "cmd": " ".join(cmd), "impl": implcanon, "model": b, "info": info.strip()[:300]})
+                res["disagree"].append({"session": sess, "call": idx, "cmd": " ".join(cmd), "impl": implcanon, "model": b, "info": info.strip()[:300],
+                                        "differs_in": snapshot_diff(implcanon, b)})
+            # the proved footprint of the call's kind (theorem C14_call_frame, printed by the extracted model) against the REAL emitter
+            if len(fbits) == 7:
+                res["frame_checked"] = res.get("frame_checked", 0) + 1
+                for bit, fld in zip(fbits, ("sz", "cur", "lab", "fix", "rel", "adr", "nod")):
+                    if bit == "0" and field_of(pre, fld) != field_of(post, fld):
+                        res["viol"].append({"key": "C14/frame/%s/%s/%s" % (FL[hdr["fl"]], cmd[0], fld),
+                                            "what": "a %s call of the %s changed `%s` (%s -> %s), a component outside the proved footprint of its kind (C14_call_frame)"
+                                                    % (cmd[0], FL[hdr["fl"]], fld, field_of(pre, fld), field_of(post, fld)),
+                                            "session": sess, "call": idx, "cmd": " ".join(cmd), "info": info.strip()[:300]})
             for key, what in monitor(hdr, cmd, pre, r, post, info, tconst):
                 res["viol"].append({"key": key, "what": what, "session": sess, "call": idx, "cmd": " ".join(cmd), "info": info.strip()[:300]})
             if len(res["samples"]) < 2 and failed and cmd[0] == "I":
@@ -317,6 +364,7 @@ def merge(total, r):
     total["skipped_sessions"] = total.get("skipped_sessions", 0) + r.get("skipped_sessions", 0)
     if r.get("probes"):
         total["probes"] = r["probes"]
+    total["frame_checked"] = total.get("frame_checked", 0) + r.get("frame_checked", 0)
     for k in ("by_kind", "by_cfg", "err_codes", "classes"):
         d = total.setdefault(k, {})
         for kk, v in r[k].items():
@@ -335,7 +383,7 @@ def failing_sites(ck, text):
     return [(n, int(l), [int(x) for x in re.findall(r"-?\d+", idx)][:8]) for n, l, idx in found], out[-1500:]
 
 
-GEN_MINE = ["X86Sigs.v", "C14Tables.v", "C14TableProofs.v", "C14MemPathModel.v", "C14MemPathProofs.v"]   # dependency order
+GEN_MINE = ["X86Sigs.v", "C14Tables.v", "C14TableProofs.v", "C14MemPathModel.v", "C14MemPathProofs.v", "C14SpecProofs.v"]   # dependency order
 
 
 def regen_mine(ck, files):
@@ -561,8 +609,8 @@ def run(ck):
         if (d["session"], d["call"]) in viol_at:
             continue
         ck.violation("C14/correspondence/" + d["cmd"].split()[0],
-                     "implementation and proven model disagree on session %d call %d `%s`: impl [%s] model [%s] %s; the independent monitor found no violated "
-                     "invariant on this call" % (d["session"], d["call"], d["cmd"], d["impl"], d["model"], d.get("info", "")),
+                     "implementation and proven model disagree on session %d call %d `%s` in {%s}: impl [%s] model [%s] %s; the independent monitor found no violated "
+                     "invariant on this call" % (d["session"], d["call"], d["cmd"], "; ".join(d.get("differs_in", [])), d["impl"], d["model"], d.get("info", "")),
                      {"seed": ck.seed, "session": d["session"], "call": d["call"], "command": d["cmd"], "impl": d["impl"], "model": d["model"],
                       "broken": "correspondence of EmitStateModel.step with /repo"}, no_input=True)
     for o in ck.proof_failures():
@@ -572,6 +620,9 @@ def run(ck):
     if not tinfo.get("a64_size_op_expression_recognised", True):
         ck.violation("C14/coverage-floor/size-op-expression", "a64assembler.cpp element_type_to_size_op no longer contains either known form of its index expression; "
                      "the transcription in coq/theories/EmitState/LookupModel.v (size_op_index/_guarded) must be redone", {"broken": "tools/c14_tables.py size_op site"}, no_input=True)
+    for fam, iid, why in tinfo.get("row_failures", []):
+        ck.violation("C14/rows/%s/%d" % (fam.replace(" ", "-"), iid), "%s instruction id %d (%s): %s - emitting it with any operands reads the table out of bounds / leaves the proved "
+                     "specification" % (fam, iid, (a64_names.get(iid, "") if fam.startswith("a64") else ""), why), {"instruction_id": iid, "family": fam, "reason": why})
     for st in tinfo.get("stale_site_transcriptions", []):
         ck.violation("C14/coverage-floor/stale-site", "a look-up statement the bounds lemmas were transcribed from is no longer in the source: %s — re-transcribe the site in "
                      "tools/c14_tables.py" % st, {"broken": "tools/c14_tables.py site list", "statement": st}, no_input=True)
@@ -595,7 +646,7 @@ def run(ck):
              "verdict_reported_by_the_implementation": (total.get("by_kind") or {}).get("I", 0),
              "deterministic_exhaustive_sweeps": ["AArch64 register ids per discovered form (sweep)", "x86 instructions / forms without an EVEX encoding against vector ids 16..31 (sweep-vexonly)"]},
          "sessions": total["sessions"], "sessions_skipped_after_repeated_aborts": total.get("skipped_sessions", 0), "failed_calls": total["failed_calls"], "failed_calls_with_throwing_handler": total["thrown"],
-         "accepted_instructions": total["ok_insts"], "fresh_emitter_comparisons": total["fresh_checked"],
+         "accepted_instructions": total["ok_insts"], "fresh_emitter_comparisons": total["fresh_checked"], "calls_checked_against_proved_footprint": total.get("frame_checked", 0),
          "calls_by_kind": total.get("by_kind"), "sessions_by_config": total.get("by_cfg"), "instruction_classes": total.get("classes"),
          "error_codes_seen": {str(k): v for k, v in sorted(total.get("err_codes", {}).items())},
          "model_vs_impl_disagreements": len(total["disagree"]), "traces_validated_against_impl": total["calls"],
